@@ -254,6 +254,9 @@ func (g *gen) header(size int) *ctypes.Header {
 		size = 2
 	}
 	nb := g.count(size, 7)
+	if nb > 3 {
+		nb = 3 // every key costs the decoder a modular square root (≈0.1 ms)
+	}
 	for i := 0; i < nb; i++ {
 		h.Bookkeepers = append(h.Bookkeepers, g.acct().PublicKey)
 	}
@@ -274,6 +277,9 @@ func boolInt(b bool) int {
 func genHeaders(g *gen, size int) mt.Message {
 	m := &mt.BlkHeader{}
 	n := g.count(size, 8)
+	if n > 3 {
+		n = 3
+	}
 	hs := size
 	if size == 3 {
 		n = pc.MAX_BLK_HDR_CNT - g.rng.Intn(2)
